@@ -365,12 +365,17 @@ class Ctx:
         if set(thms) != set(printed) or not thms:
             self.broke('props-file-shape', f'theorems {thms} vs Print Assumptions {printed}')
             return False
-        vo = os.path.join(COQ, props_file + 'o')
-        with CoqLock():
-            if os.path.exists(vo):
-                os.remove(vo)
         corr = [f + 'o' for f in roots[1:]]
         rc, out = coq_make([props_file + 'o'] + corr + list(extra_targets))
+        if rc != 0:
+            self.cov['discharged'] = 0
+            self.broke(f'proof:{props_file}', out)
+            return False
+        # Re-check the statements file itself into a private output (so that concurrent runs never
+        # race on the shared .vo) and read its Print Assumptions output.
+        os.makedirs(os.path.join(self.work, 'props'), exist_ok=True)
+        priv = os.path.join(self.work, 'props', os.path.basename(props_file) + 'o')
+        rc, out, _ = _run(['coqc', '-Q', COQ, 'AV', '-w', '-all', '-o', priv, os.path.join(COQ, props_file)], 1200, cwd=COQ)
         if rc != 0:
             self.cov['discharged'] = 0
             self.broke(f'proof:{props_file}', out)
